@@ -253,14 +253,20 @@ def hist_main(specfile, cfgjson, out):
                 ('differs', 'raised %s, history-free reference %s' % (rec.get('raised'), base.get('raised', 'returned')))
         if rec['outs'] == base['outs'] and (not with_grad or rec.get('grads') == want.get('grads')):
             return 'same', None
-        # digest mismatch: measure it
-        refarr = np.load(os.path.join(WORK, 'ref-%d.json%s' % (spec['id'], '.g.npz' if with_grad else '.npz')))
+        # digest mismatch: measure it.  Outputs are always measured against the *no-grad* fresh
+        # reference (they must not depend on whether autograd is recording), gradients against the
+        # fresh gradient reference
+        ref0 = np.load(os.path.join(WORK, 'ref-%d.json.npz' % spec['id']))
+        nout = len(ref0.files)
+        want_arrays = [ref0['a%d' % i] for i in range(nout)]
+        if with_grad:
+            refg = np.load(os.path.join(WORK, 'ref-%d.json.g.npz' % spec['id']))
+            want_arrays += [refg['a%d' % i] for i in range(nout, len(refg.files))]
         worst = 0.0
-        n = len(refarr.files)
-        if n != len(arrays):
-            return 'differs', 'returned %d tensors, reference %d' % (len(arrays), n)
-        for i, a in enumerate(arrays):
-            worst = max(worst, ulp_distance(a, refarr['a%d' % i]))
+        if len(want_arrays) != len(arrays):
+            return 'differs', 'returned %d tensors, reference %d' % (len(arrays), len(want_arrays))
+        for a, w_ in zip(arrays, want_arrays):
+            worst = max(worst, ulp_distance(a, w_))
         if worst <= 4:
             return 'ulp', 'max %.2f ulp from the history-free reference' % worst
         return 'differs', 'differs from the history-free reference by %.3g ulp' % worst
